@@ -114,6 +114,9 @@ func build(c *lib.Ctx, d CheckDef) []*sched.Scenario {
 				sc.MaxBound = 1
 			}
 		}
+		if c.Quick() {
+			sc.AutoDelay = 1500
+		}
 		out = append(out, NewScenario(sc, d.Oracles))
 	}
 	return out
